@@ -131,6 +131,7 @@ class Forward:
             if a.get("op") != "=":
                 raise Bad("local %s is modified by %s before it is forwarded" % (self.name(key), a.get("op")), a)
             srcs.append(("assign", a["c"][1]))
+            self.check_guards(key, a)
         stores = self.elem_stores.get(key, [])
         if stores:
             return self.copy_loop_leaves(key, stores, init)
@@ -155,6 +156,39 @@ class Forward:
         how, ls, s = params[-1]
         # an assignment (rather than the initialiser) must be guarded only by a null test of the same parameter
         return ls
+
+    def check_guards(self, key, asg):
+        """an assignment `local = <form of parameter p>` may be conditional only on null tests of p itself:
+        forwarding of one argument must not depend on another argument"""
+        P, F = self.P, self.F
+        try:
+            ls = self.leaves(asg["c"][1], 1)
+        except (Bad, Unknown):
+            return
+        own = {l.key for l in ls if l.key is not None}
+        for a in F.ancestors(asg):
+            if a.get("k") != "IfStmt":
+                continue
+            in_then = any(y is asg for y in F.walk(a["c"][1]))
+            conj = []
+
+            def split(x):
+                x = sc(x)
+                if x is not None and x.get("k") == "BinaryOperator" and x.get("op") == "&&":
+                    split(x["c"][0])
+                    split(x["c"][1])
+                else:
+                    conj.append(x)
+            split(a["c"][0])
+            for c in conj:
+                refs = {x["r"] for x in F.walk(c) if x.get("k") == "DeclRefExpr" and x.get("r") in self.params}
+                is_null_test = c is not None and c.get("k") == "BinaryOperator" and c.get("op") in ("!=", "==") and any(
+                    sc(z).get("k") in ("CXXNullPtrLiteralExpr", "GNUNullExpr", "IntegerLiteral") for z in c["c"])
+                if not refs:
+                    continue
+                if not (refs <= own and is_null_test and in_then):
+                    raise Bad("forwarding of %s into %s is conditional on %s" % (
+                        "/".join(self.name(k) for k in own), self.name(key), norm.render(P, c)), asg)
 
     def copy_loop_leaves(self, key, stores, init):
         """local L filled by L[i][k] = P[i][k] (k literal) in a forward loop i < N, L sized N"""
